@@ -79,7 +79,7 @@ theorem isSome_false_iff {α : Type} {o : Option α} : ¬ (o.isSome = true) ↔ 
   cases o <;> simp
 
 /-- **every in-contract operation** keeps the invariant and conserves identities -/
-theorem step_ok {w : World} (hinv : Inv w) (op : Op) (hin : inContract w op = true) :
+theorem step_ok {w : World} (hinv : Inv w) (op : Op) (hin : noKnownFinding w op = true) :
     StepOK w (step w op).1 (step w op).2 := by
   have hpos := hinv.pos
   cases op with
@@ -146,6 +146,10 @@ theorem step_ok {w : World} (hinv : Inv w) (op : Op) (hin : inContract w op = tr
       exact stepOK_seq hinv c _ .probe _ _ _ xs (oldToks_of_lookup hl) (cons_arrayPushAt _ _ _ _)
     · rename_i xs hl
       exact stepOK_seq hinv c _ .probe _ _ _ xs (oldToks_of_lookup hl) (cons_listPushAt _ _ _ _)
+    · rename_i xs hl
+      exact stepOK_seq hinv c _ .box _ _ _ xs (oldToks_of_lookup hl) (cons_arrayPushAtBox _ _ _ _)
+    · rename_i xs hl
+      exact stepOK_seq hinv c _ .box _ _ _ xs (oldToks_of_lookup hl) (cons_listPushAtBox _ _ _ _)
     · exact stepOK_bad hinv
   | pop c =>
     simp only [step]
@@ -168,7 +172,7 @@ theorem step_ok {w : World} (hinv : Inv w) (op : Op) (hin : inContract w op = tr
       exact stepOK_seq hinv c k .probe _ _ _ xs (oldToks_of_lookup hl)
         (cons_seqSetProbe _ _ _ _ (by simpa [Cont.toks] using inv_noraw hinv hl))
     · rename_i k xs hl
-      simp [inContract, hl] at hin
+      simp [noKnownFinding, hl] at hin
     · exact stepOK_bad hinv
   | rem c p =>
     simp only [step]
@@ -185,7 +189,7 @@ theorem step_ok {w : World} (hinv : Inv w) (op : Op) (hin : inContract w op = tr
       exact stepOK_seq hinv c _ ek _ _ _ xs (oldToks_of_lookup hl) ⟨this.1, nofresh this.2⟩
     · rename_i ek xs hl
       have hle : n ≤ xs.length := by
-        simp only [inContract, hl] at hin
+        simp only [noKnownFinding, hl] at hin
         simpa using hin
       have := cons_listResize xs n hle
       exact stepOK_seq hinv c _ ek _ _ _ xs (oldToks_of_lookup hl) ⟨this.1, nofresh this.2⟩
@@ -208,20 +212,39 @@ theorem step_ok {w : World} (hinv : Inv w) (op : Op) (hin : inContract w op = tr
     · split
       · rename_i k xs _ src hl hd
         exact stepOK_seq hinv c k .probe _ _ _ xs (oldToks_of_lookup hl) (cons_seqConcatProbe _ _ _)
-      · rename_i xs _ src hl hd
-        simp [inContract, srcIsBox, hd, Cont.isBox] at hin
+      · rename_i k xs _ src hl hd
+        simp [noKnownFinding, srcIsBox, hd, Cont.isBox] at hin
       · exact stepOK_bad hinv
   | assign c d =>
     simp only [step]
     split
-    · rename_i k ek xs _ src hl hd
-      exact stepOK_seq hinv c k .probe _ _ _ xs (oldToks_of_lookup hl) (cons_seqAssignProbe _ _ _)
-    · rename_i xs _ src hl hd
-      simp [inContract, srcIsBox, hd, Cont.isBox] at hin
-    · rename_i k kvs _ src hl hd
-      exact stepOK_map hinv c k _ _ (kvToks kvs) (oldToks_of_lookup hl) (cons_mapAssign k w.next kvs _ hpos)
-        (keys_mapAssign k w.next kvs _)
-    · exact stepOK_bad hinv
+    · -- assign(x, x): nothing happens
+      split
+      · exact stepOK_bad hinv
+      · rename_i x hcell hl
+        apply stepOK_commit hinv
+        · rfl
+        · rw [oldToks_of_lookup hl]; simp [Conserves, newToks]
+        · intro mk kvs he
+          simp only [Option.some.injEq] at he
+          exact inv_keys hinv (by rw [hl, he])
+      · exact stepOK_bad hinv
+    · rename_i hcd
+      split
+      · rename_i k ek xs _ src hl hd
+        exact stepOK_seq hinv c k .probe _ _ _ xs (oldToks_of_lookup hl) (cons_seqAssignProbe _ _ _)
+      · rename_i k _ xs _ src hl hd
+        simp [noKnownFinding, srcIsBox, hd, Cont.isBox, hcd] at hin
+      · rename_i k kvs _ src hl hd
+        exact stepOK_map hinv c k _ _ (kvToks kvs) (oldToks_of_lookup hl) (cons_mapAssign k w.next kvs _ hpos)
+          (keys_mapAssign k w.next kvs _)
+      · -- sequence ← map: in contract only for an empty source (the destination is cleared, nothing else happens)
+        rename_i k ek xs _ src hl hd
+        have hsrc : src = [] := by
+          simp [noKnownFinding, srcIsBox, crossRefused, hl, hd, Cont.isBox, hcd] at hin; exact hin
+        subst hsrc
+        exact stepOK_seq hinv c k .probe _ _ _ xs (oldToks_of_lookup hl) (by simp [seqAssignFromMap, Conserves, FreshFrom])
+      · exact stepOK_bad hinv
   | copy c d =>
     simp only [step]
     split
@@ -235,12 +258,12 @@ theorem step_ok {w : World} (hinv : Inv w) (op : Op) (hin : inContract w op = tr
       · rename_i k src hd
         exact stepOK_seq hinv c k .probe _ _ _ [] (oldToks_of_none hnone) (cons_seqAssignProbe _ _ _)
       · rename_i k src hd
-        simp [inContract, srcIsBox, hd, Cont.isBox] at hin
+        simp [noKnownFinding, srcIsBox, hd, Cont.isBox] at hin
       · rename_i k src hd
         exact stepOK_map hinv c k _ _ [] (oldToks_of_none hnone) (by simpa using cons_mapAssign k w.next [] src hpos)
           (keys_mapAssign k w.next [] src)
       · rename_i t hd
-        simp [inContract, srcIsBox, hd, Cont.isBox] at hin
+        simp [noKnownFinding, srcIsBox, hd, Cont.isBox] at hin
       · exact stepOK_bad hinv
   | mset c k v =>
     simp only [step]
@@ -267,7 +290,8 @@ theorem step_ok {w : World} (hinv : Inv w) (op : Op) (hin : inContract w op = tr
       · rw [oldToks_of_lookup hl]; simp [Conserves, newToks]
       · intro mk kvs he; simp at he
     · exact stepOK_bad hinv
-  | bassign c d => simp [inContract] at hin
+  | bassign c d => simp [noKnownFinding] at hin
+  | bref c p => simp [noKnownFinding] at hin
   | read c =>
     simp only [step]
     split
@@ -287,7 +311,7 @@ def Op.target : Op → Nat
   | .new c _ => c | .newSeq c _ _ => c | .newMap c _ _ => c | .box c _ => c | .push c _ => c | .pushAt c _ _ => c
   | .pop c => c | .popAt c _ => c | .set c _ _ => c | .rem c _ => c | .resize c _ => c | .sort c => c
   | .concat c _ => c | .assign c _ => c | .copy c _ => c | .mset c _ _ => c | .mrem c _ => c | .del c => c
-  | .bassign c _ => c | .read c => c
+  | .bassign c _ => c | .bref c _ => c | .read c => c
 
 theorem commit_objs (w : World) (c : Nat) (isBox : Bool) (cont : Option Cont) (r : Res Unit) (touched : List Nat) :
     (commit w c isBox cont r touched).1.objs = objsAfter w.objs c cont := by
